@@ -321,6 +321,8 @@ type mutant struct {
 	intact bool
 	// forceBusy / noBusy: always / never use the busy unwrap callback for this Decrypt
 	forceBusy, noBusy bool
+	// forceHdrChunk: deliver the header as its own chunk(s), then zero-length reads (see partsReader)
+	forceHdrChunk bool
 }
 
 func (m *mutant) length() int {
@@ -378,6 +380,17 @@ type partsReader struct {
 	chunk        int
 	rng          *mon.RNG
 	term         error
+	// "header as its own chunk": the first reads deliver exactly the bytes up to hdrEnd (the third line feed of
+	// the document as it is), cut at hdrCuts; then zerosAfterHdr legal no-progress reads (0, nil) come before any
+	// body byte; with sprinkle, further (0, nil) reads come between body chunks and once before the terminal
+	// event (EOF or the injected error). Never two (0, nil) in a row except the counted ones after the header.
+	hdrEnd        int
+	hdrCuts       []int
+	zerosAfterHdr int
+	sprinkle      bool
+	lastZero      bool
+	zeroAtEnd     bool
+	zeroReads     int
 }
 
 func (r *partsReader) Read(p []byte) (int, error) {
@@ -387,13 +400,29 @@ func (r *partsReader) Read(p []byte) (int, error) {
 	if r.term != nil {
 		return 0, r.term
 	}
+	if r.hdrEnd > 0 && r.pos == r.hdrEnd && r.zerosAfterHdr > 0 {
+		r.zerosAfterHdr--
+		r.zeroReads++
+		return 0, nil
+	}
 	if r.pos >= r.limit {
+		if r.sprinkle && !r.zeroAtEnd && r.pos >= r.hdrEnd {
+			r.zeroAtEnd = true
+			r.zeroReads++
+			return 0, nil
+		}
 		r.term = io.EOF
 		if r.fail {
 			r.term = r.failErr
 		}
 		return 0, r.term
 	}
+	if r.sprinkle && r.pos > r.hdrEnd && !r.lastZero && r.rng.Chance(1, 3) {
+		r.lastZero = true
+		r.zeroReads++
+		return 0, nil
+	}
+	r.lastZero = false
 	for r.off == len(r.parts[r.pi]) {
 		r.pi++
 		r.off = 0
@@ -401,6 +430,15 @@ func (r *partsReader) Read(p []byte) (int, error) {
 	n := min(len(r.parts[r.pi])-r.off, len(p), r.limit-r.pos)
 	if r.chunk > 0 {
 		n = min(n, 1+r.rng.Intn(r.chunk))
+	}
+	if r.pos < r.hdrEnd {
+		// never past the next cut of the header, and never past the header end
+		for _, c := range r.hdrCuts {
+			if c > r.pos {
+				n = min(n, c-r.pos)
+				break
+			}
+		}
 	}
 	copy(p, r.parts[r.pi][r.off:r.off+n])
 	r.off += n
@@ -432,10 +470,11 @@ type outcome struct {
 // session is one Decrypt stream that can be read piecewise, so that other
 // operations can be run while it is half consumed.
 type session struct {
-	o    outcome
-	dr   io.Reader
-	done bool
-	buf  []byte
+	hdrReader *partsReader // set when the "header as its own chunk" source style is in use
+	o         outcome
+	dr        io.Reader
+	done      bool
+	buf       []byte
 }
 
 // start gives the mutant to the real kit.Decrypt.
@@ -458,6 +497,38 @@ func start(m *mutant, rng *mon.RNG) *session {
 		if rng.Chance(1, 4) {
 			r.eofWithData = true
 			o.style += "+eof-with-data"
+		}
+	}
+	if m.forceHdrChunk || (rng != nil && rng.Chance(1, 4)) {
+		srng := rng
+		if srng == nil {
+			srng = mon.NewRNG("c02-hdr-chunk", curIdx)
+		}
+		// where the header of the document AS IT IS ends (third line feed)
+		head := m.head(70000)
+		end := 0
+		for i, nl := 0, 0; i < len(head); i++ {
+			if head[i] == '\n' {
+				if nl++; nl == 3 {
+					end = i + 1
+					break
+				}
+			}
+		}
+		if end > 0 && end <= r.limit {
+			r.rng = srng
+			r.hdrEnd = end
+			nc := srng.Range(1, 3)
+			for c := 1; c < nc; c++ {
+				r.hdrCuts = append(r.hdrCuts, srng.Range(1, end-1))
+			}
+			sort.Ints(r.hdrCuts)
+			r.hdrCuts = append(r.hdrCuts, end)
+			r.zerosAfterHdr = srng.PickInt(1, 2, 5)
+			r.sprinkle = true
+			o.style += fmt.Sprintf("+header-in-%d-own-chunk(s)+%d-zero-length-reads-before-the-body+sprinkled", nc, r.zerosAfterHdr)
+			rec.Count("srcstyle.header_as_own_chunk", 1)
+			s.hdrReader = r
 		}
 	}
 	uw := m.unwrap
@@ -543,6 +614,9 @@ func (s *session) abandon() {
 func run(m *mutant, rng *mon.RNG) outcome {
 	s := start(m, rng)
 	s.read(-1)
+	if s.hdrReader != nil {
+		rec.Count("srcstyle.zero_length_reads", s.hdrReader.zeroReads)
+	}
 	return s.o
 }
 
@@ -1485,7 +1559,7 @@ func TestCheck(t *testing.T) {
 		"segment delete/duplicate/append/swap/drop-tail/drop-head for every segment; splices with a same-length document under the same and under another key-encryption key (payload, header, MAC line, manifest, single segment, tag, body); "+
 		"nine misbehaving unwrap callbacks; one-byte insertions (7 values) and deletions at every header offset and at segment landmarks; ~110 semantic header edits (JSON re-encodings that parse to the same values: white space, member order, member-name case, \\u escapes, duplicate and unknown members, unused base64 bits of np/wfk; changes of every field; MAC-line spellings; scheme line; line structure); "+
 		"for non-empty plaintexts every one of these header edits, every single-bit flip and every one-byte insertion/deletion of the header COMBINED with dropping all segments or keeping only the first k payload bytes; "+
-		"sticky source-reader errors at every header offset, around every boundary, mid-segment, in place of the final EOF, each alone (0, err) and together with the last data (n>0, err), and each with every member of an error family (private sentinel, io.ErrUnexpectedEOF plain and wrapped, io.ErrNoProgress, io.ErrClosedPipe, context.Canceled, wrapped os.ErrDeadlineExceeded, a net.Error-like timeout), plus seeded offsets with a seeded member; seeded compound mutations; BUSY UNWRAP CALLBACK: in every fourth Decrypt of every family (tampered, truncated, forged, overlapped ... documents, honest and hostile callbacks alike) and for one unmodified control document per (base document, family) case, the unwrap callback first runs a complete inner enc/v1 Encrypt->Decrypt round trip of a ~2 KiB record through the same package (which must itself be exact) and only then answers - the package-level pools are used between kit's header read and its first segment; the oracle of the outer document is unchanged (a control document must decrypt exactly). FORGED documents (after the huge cases): built by refenc under a file key an attacker can guess (all zero, all 0xFF, 32 x 0x01, the wfk bytes, SHA-256 of the manifest or of the wfk, the padded key name) x both ciphers x plaintext lengths {0,1,1000,65536,65537} x wfk field {garbage, short garbage, another valid document's wfk} x 12 unwrap behaviours (honest, error, nil, empty, 3/31/33/64 bytes, that key WITH an error, other keys with and without error): every one must be refused without releasing a byte (an accepted EMPTY forged document is observed, not judged); OVERLAP mode: for the unmodified document and a sample of mutants of every class, the Decrypt stream is read to k bytes (k in {1,10,65535,65546}), then complete other operations run (decrypt of an unrelated valid document, of a tampered one, of attacker-supplied garbage, an Encrypt), then the rest is read - or the stream is given up and closed after three such operations; the outer stream and every inner operation are judged by the same rule (an unmodified document must give exactly its plaintext). "+
+		"sticky source-reader errors at every header offset, around every boundary, mid-segment, in place of the final EOF, each alone (0, err) and together with the last data (n>0, err), and each with every member of an error family (private sentinel, io.ErrUnexpectedEOF plain and wrapped, io.ErrNoProgress, io.ErrClosedPipe, context.Canceled, wrapped os.ErrDeadlineExceeded, a net.Error-like timeout), plus seeded offsets with a seeded member; seeded compound mutations; SOURCE STYLE header-as-its-own-chunk: in a quarter of the Decrypts of every family (and for one unmodified control document per case) the source delivers exactly the header of the document as it is (up to its third line feed) in 1-3 chunks of its own, then 1, 2 or 5 legal no-progress reads (0, nil) before any body byte, further (0, nil) reads between body chunks and one before the final EOF or injected error; the oracle is unchanged (never a clean EOF short of the authentic plaintext; the known finding still only matches a document reduced to its authentic header). BUSY UNWRAP CALLBACK: in every fourth Decrypt of every family (tampered, truncated, forged, overlapped ... documents, honest and hostile callbacks alike) and for one unmodified control document per (base document, family) case, the unwrap callback first runs a complete inner enc/v1 Encrypt->Decrypt round trip of a ~2 KiB record through the same package (which must itself be exact) and only then answers - the package-level pools are used between kit's header read and its first segment; the oracle of the outer document is unchanged (a control document must decrypt exactly). FORGED documents (after the huge cases): built by refenc under a file key an attacker can guess (all zero, all 0xFF, 32 x 0x01, the wfk bytes, SHA-256 of the manifest or of the wfk, the padded key name) x both ciphers x plaintext lengths {0,1,1000,65536,65537} x wfk field {garbage, short garbage, another valid document's wfk} x 12 unwrap behaviours (honest, error, nil, empty, 3/31/33/64 bytes, that key WITH an error, other keys with and without error): every one must be refused without releasing a byte (an accepted EMPTY forged document is observed, not judged); OVERLAP mode: for the unmodified document and a sample of mutants of every class, the Decrypt stream is read to k bytes (k in {1,10,65535,65546}), then complete other operations run (decrypt of an unrelated valid document, of a tampered one, of attacker-supplied garbage, an Encrypt), then the rest is read - or the stream is given up and closed after three such operations; the outer stream and every inner operation are judged by the same rule (an unmodified document must give exactly its plaintext). "+
 		"Huge tamper cases (after the ordinary ones, each run by one child; quick: AES-GCM, thorough: both ciphers): kit.Encrypt of a generated 4 GiB + 128 KiB + 100 byte plaintext (65539 segments, every one different) is streamed to a scratch file, then (a) segment 65536 is replaced by a copy of segment 0 and (b) segments 1 and 65537 are swapped, the tampered document is streamed through kit.Decrypt and the released bytes are compared position by position with the generator - the only mutants in which segment numbers differ in the upper half of the nonce's 32-bit counter. "+
 		"Every mutant is decrypted by the real kit.Decrypt through an all-at-once or seeded-chunk reader and read to the end. Rule: Decrypt error OR non-EOF stream error OR (bytes == plaintext AND EOF), and the released bytes are a prefix of the plaintext; "+
 		"for a source error an error is mandatory. A payload-less mutant that kit turns into \"\" + clean EOF is classified by the independent implementation (refenc.CheckHeader: does the MAC over the raw first two lines verify?): authentic header = the known format-level finding truncate@header-end/nonempty; header rejected by the reference = a violation with the mutation's own signature; only the MAC-line spelling differs (kit lenient, reference strict) = observed, not judged. Accepted mutants with identical plaintext whose header the reference rejects are counted (accepted_identical_but_header_fails_reference_mac), not judged. Mutants equal to the original are skipped. Evaluations = mutants judged; enumerated families are distinct by construction, seeded compound mutants are keyed by their description; non-trivial = every mutant (it differs from the original or carries a fault).")
@@ -1493,7 +1567,7 @@ func TestCheck(t *testing.T) {
 		"srcerr.surfaced", "truncate.at.segment-boundary", "truncate.at.header-end", "truncate.at.segment-tag", "truncate.at.segment-body", "srcerr.at.final-eof", "srcerr.at.final-eof+data",
 		"rejected_or_identical.seg-swap", "rejected_or_identical.splice-samekek", "rejected_or_identical.splice-otherkek", "rejected_or_identical.unwrap", "rejected_or_identical.extend",
 		"huge.tamper_rejected.seg-replace", "huge.tamper_rejected.seg-swap", "huge.rejected_exactly_at_segment_65536",
-		"busy_unwrap.decrypts", "busy_unwrap.inner_round_trips_exact", "busy_unwrap.control_documents_exact", "callback.key_cache_verified", "forged.documents_judged", "forged.refused_by_decrypt", "forged.unwrap.honest", "forged.unwrap.error", "forged.unwrap.that-key-with-error", "forged.unwrap.64-bytes",
+		"srcstyle.header_as_own_chunk", "srcstyle.zero_length_reads", "srcstyle.control_documents_exact", "busy_unwrap.decrypts", "busy_unwrap.inner_round_trips_exact", "busy_unwrap.control_documents_exact", "callback.key_cache_verified", "forged.documents_judged", "forged.refused_by_decrypt", "forged.unwrap.honest", "forged.unwrap.error", "forged.unwrap.that-key-with-error", "forged.unwrap.64-bytes",
 		"overlap.cases", "overlap.outer_stream_was_half_read", "overlap.intact_stream_exact", "overlap.abandoned_cases", "overlap.abandoned_stream_prefix_ok", "overlap.abandoned_stream_closed",
 		"overlap.inner.decrypt-valid", "overlap.inner.decrypt-tampered", "overlap.inner.decrypt-garbage", "overlap.inner.encrypt_ok",
 		"rejected_or_identical.srcerr", "rejected_or_identical.srcerr(unexpected-eof)", "rejected_or_identical.srcerr(wrapped-unexpected-eof)", "rejected_or_identical.srcerr(context-canceled)", "srcerr.surfaced_as_the_injected_error",
@@ -1555,6 +1629,14 @@ func TestCheck(t *testing.T) {
 		j.evaluate(ctl, run(ctl, nil))
 		if rec.Violations() == before {
 			rec.Count("busy_unwrap.control_documents_exact", 1)
+		}
+		// control: the unmodified document from a source that delivers the header as its own chunk(s), then
+		// legal no-progress reads (0, nil) before the body, between body chunks and before the EOF
+		ctl2 := &mutant{class: "control", pos: "header-own-chunk+zero-length-reads", desc: "unmodified document, header delivered as its own chunk(s), zero-length reads before and inside the body", parts: [][]byte{b.doc}, intact: true, forceHdrChunk: true, forceBusy: idx%2 == 0}
+		before = rec.Violations()
+		j.evaluate(ctl2, run(ctl2, nil))
+		if rec.Violations() == before {
+			rec.Count("srcstyle.control_documents_exact", 1)
 		}
 		families[c.family].run(j)
 		rec.Count("family."+families[c.family].name, int(j.n))
